@@ -8,6 +8,7 @@ hand-written C20 models (coq/model/Rdkit.v, coq/model/RdkitRegistry.v) copy -> c
               stereogenic_tetrahedrons     `if len(env) in (3, 4)`                         -> tetra_env_sizes : list Z
                                            `atoms[x] != H`, `is_forming_single_bonds`      (shape checked)
               __chiral_centers             `any(len(x) < 8 for x in atoms_rings[n])`       -> ring_small_below : Z      (op must be <)
+              __differentiation            `min(n1, n2, key=morgan.get)` (four choices of a reference substituent; shape checked)
               _chiral_morgan               `if not stereo_atoms and not stereo_bonds: return self.atoms_order`
                                                                                            -> plain_order_negated : bool * bool (both True)
   element.py  charge.setter                `elif value > 4 or value < -4: raise ValueError` -> charge_max charge_min : Z
@@ -153,6 +154,18 @@ def consts(repo='/repo'):
         _fail(path, ifs[0], f'_chiral_morgan: entry test is over {names}')
     out['plain_order_negated'] = neg
 
+    # ---- __differentiation: the reference substituent of a labelled double bond is the one of LOWER CANONICAL WEIGHT
+    fn = _func(cls, '__differentiation', path)
+    mins = [n for n in ast.walk(fn) if isinstance(n, ast.Call) and getattr(n.func, 'id', None) == 'min' and len(n.args) == 2
+            and all(isinstance(a, ast.Name) for a in n.args)]
+    for c in mins:
+        kw = {k.arg: ast.unparse(k.value) for k in c.keywords}
+        if kw != {'key': 'morgan.get'}:
+            _fail(path, c, f'__differentiation: `{ast.unparse(c)}` does not choose by canonical weight (key=morgan.get)')
+    if len(mins) != 4:
+        _fail(path, fn, f'__differentiation: expected four `min(x, y, key=morgan.get)` choices, found {len(mins)}')
+    out['differentiation_min_by_weight'] = len(mins)
+
     # ---- Element.charge setter
     path2 = os.path.join(repo, 'chython/periodictable/base/element.py')
     tree2 = ast.parse(open(path2).read())
@@ -182,6 +195,7 @@ def main(repo='/repo', dest=None):
             f'Definition ring_small_below : Z := {zraw(c["ring_small_below"])}.      (* any(len(x) < . for x in atoms_rings[n]) *)',
             f'Definition plain_order_negated : bool * bool := ({b(c["plain_order_negated"][0])}, {b(c["plain_order_negated"][1])}).'
             '   (* if [not] stereo_atoms and [not] stereo_bonds: return self.atoms_order *)',
+            f'Definition differentiation_min_by_weight : Z := {zraw(c["differentiation_min_by_weight"])}.   (* min(n1, n2, key=morgan.get) choices in __differentiation *)',
             f'Definition charge_max : Z := {zraw(c["charge_max"])}.',
             f'Definition charge_min : Z := {zraw(c["charge_min"])}.', '']
     return write_if_changed(dest, '\n'.join(text))
